@@ -390,6 +390,14 @@ def retract_cases(seed):
                  "at 0 : wr f1 2", "at 2 : wr f1 1 ; wr f0 1",
                  f"do reg f0 100 ; try f1 {Fa} ; heal f1 ; reg f1 {Fb} ; trel t0 30000000", "main"]
             cases.append((f"reregister-{METHOD_NAME[m]}-{k}", L))
+        # iv_fd_register_try on a HEALTHY descriptor while the registration probe (poll/ppoll methods) is interrupted by a signal: it must
+        # succeed all the same, on every method
+        for k in (1, 2):
+            for F1 in ("100", "010", "001"):
+                L = ([f"exclude {m}"] if m else []) + [f"cfg waitlimit=10 cblimit=100 probe-eintr={k}", "obj fd f0 sock", "obj fd f1 sock", "obj timer t0",
+                     "on f0.in * : rd f0", "on f1.in * : rd f1", "on f0.out 2 : ?setout f0 0", "on t0 1 : ?unreg f0 ; ?unreg f1",
+                     "at 0 : wr f0 1 ; wr f1 1", f"do try f0 {F1} ; try f1 100 ; trel t0 30000000", "main"]
+                cases.append((f"tryeintr-{METHOD_NAME[m]}-{k}-{F1}", L))
         # failed registration attempt, after which the caller releases the object (free) or the descriptor number comes to life for
         # ANOTHER object; then earlier-registered descriptors go away (table compaction), others are added, and events arrive on the number:
         # the library must have kept nothing of the failed attempt (no table slot, no pointer to the caller's object, no kernel interest)
